@@ -58,6 +58,11 @@ def implies(a, b):
     return (not a) or b
 
 
+def trigger(*args):
+    """Explicit quantifier trigger (proof hint).  Natively: True."""
+    return True
+
+
 def ghost_copy(x):
     return x.copy() if hasattr(x, "copy") else x
 
